@@ -166,6 +166,13 @@ def gen_cards(rng):
             obsd[rng.choice(["F2_light", "FL_total"])] = []
         ob["observables"] = obsd
         cardsd[f"O{j}"] = ob
+    # spellings a YAML author may use
+    if rng.random() < 0.15:
+        shared["G0"][-1] = 1  # integer spelling of the last node
+    if rng.random() < 0.08:
+        t = cardsd[f"T{rng.randrange(nth)}"]
+        t.setdefault("alphaqed", 0.007496)
+        t.setdefault("alphaem", 0.007496)  # both the legacy and the new key present
     # natural rejections: a minority of cards carries something the runner refuses
     r = rng.random()
     if r < 0.06:
